@@ -189,15 +189,18 @@ def r4(c):
             n += 1 if ok else 0
     c.exact('length table entries', n, 16)
     # unknown function -> Unknown; exception responses -> Fixed(1) only for responses
-    get = one(b.calls('rodbus::common::function::FunctionCode::get'), 'FunctionCode::get')
-    none = q.outcomes(b, get).get('None', [])
-    okn = len(none) == 1
-    if okn:
-        xs = [x for x in exs if x['node'] in b.reach_set(none[0])]
-        okn = len(xs) == 1 and xs[0]['kind'] == 'agg' and xs[0]['variant'] == 'Unknown'
-    c.ob('unknown', okn, 'an unknown function code gives LengthMode::Unknown', '', get.loc())
+    gets = b.calls('rodbus::common::function::FunctionCode::get')
+    okn = 1 <= len(gets) <= 2
+    for get in gets:
+        none = q.outcomes(b, get).get('None', [])
+        okg = len(none) == 1
+        if okg:
+            xs = [x for x in exs if x['node'] in b.reach_set(none[0])]
+            okg = len(xs) == 1 and xs[0]['kind'] == 'agg' and xs[0]['variant'] == 'Unknown'
+        okn = okn and okg
+    c.ob('unknown', okn, 'an unknown function code gives LengthMode::Unknown (at every lookup of the function code)', '%d lookups' % len(gets), loc_of(b))
     fx = [x for x in exs if x['kind'] == 'agg' and x['variant'] == 'Fixed' and q.const_val(b, x['rv']['a'][0]) == 1]
-    oke = len(fx) == 1 and not b.dominates(get.node, fx[0]['node'])
+    oke = len(fx) == 1 and not any(b.dominates(get.node, fx[0]['node']) for get in gets)
     if oke:
         ands = [s for _, s in b.assigns() if s['rv']['r'] == 'bin' and s['rv']['op'] == 'BitAnd' and any(q.const_val(b, a) == 0x80 for a in s['rv']['a'])]
         resp = [e for (_, e, reg) in dirs.get('Response', []) if q.dom(b, e, fx[0]['node'])]
@@ -267,3 +270,10 @@ def r5(c):
 def r6(c):
     from rules.c03 import r2 as c03_r2
     c03_r2(c)
+
+
+@rule('C06', 'R06.7', 'chunking: the parser state persists between reads; it is reset only after a framing error and at session start (C05/R05.4, R05.7)', needs=HAS_SERIAL)
+def r7(c):
+    from rules import c05
+    c05.r4(c)
+    c05.r7(c)
